@@ -818,6 +818,21 @@ func genC01(e *emitter, tier string, seed uint64) {
 		case 4:
 			s = string(c01RandBytes(r, r.intn(8))) // often invalid UTF-8
 			cnt = "mbox:bytes"
+		case 5:
+			// beyond the 128-byte chunks of transform.String: '&' and non-ASCII near the chunk boundaries
+			var sb strings.Builder
+			for sb.Len() < 100+r.intn(300) {
+				switch r.intn(3) {
+				case 0:
+					sb.WriteString(strings.Repeat("a", 1+r.intn(130)))
+				case 1:
+					sb.WriteString(c01RandUTF8(r, 1+r.intn(5)))
+				default:
+					sb.WriteString("&")
+				}
+			}
+			s = sb.String()
+			cnt = "mbox:multi-chunk"
 		default:
 			s = c01RandUTF8(r, r.intn(12))
 		}
